@@ -70,19 +70,82 @@ def _winit(modname, tier, seed):
         mod.worker_init(tier)
 
 
+from .env import CaseTimeout, WATCHDOG  # noqa: E402
+
+
+def _on_cpu_alarm(signum, frame):
+    # relay code may swallow this (a 'return' inside 'finally' does): the flag makes the harness loops raise it again at their next step
+    WATCHDOG["fired"] = True
+    raise CaseTimeout()
+
+
+def _arm(budget):
+    import signal
+
+    WATCHDOG["fired"] = False
+    signal.setitimer(signal.ITIMER_VIRTUAL, budget, 5.0)  # after the budget: again every 5 s of CPU, in case the interruption is swallowed
+
+
+def _disarm():
+    import signal
+
+    signal.setitimer(signal.ITIMER_VIRTUAL, 0)
+    WATCHDOG["fired"] = False
+
+
+def _cpu_budget(mod, tier):
+    """CPU seconds (of this worker process, not wall clock: machine load does not count) one case may use before the relay code it runs
+    is declared non-terminating.  Cases take well under a minute of CPU on the unchanged tree; the budget is two orders above that."""
+    b = getattr(mod, "CASE_CPU_BUDGET", None) or {"quick": 300, "thorough": 6000}
+    return int(os.environ.get("NRMC_CASE_CPU_BUDGET", b[tier]))
+
+
 def _wrun(chunk):
+    import signal
+
     mod = _W["mod"]
     out = []
     first = True
+    budget = _cpu_budget(mod, _W.get("tier", "quick"))
+    signal.signal(signal.SIGVTALRM, _on_cpu_alarm)
     for case in chunk:
         try:
             from . import env as _env
 
             _env.CLOCK.now = 1_700_000_000.0  # every case starts from the same wall clock
-            r = mod.run_case(case)
+            # once a case of this worker did not terminate, the code under test spins somewhere: the remaining cases get a tenth of the budget
+            _arm(budget if not _W.get("timeouts") else max(20, budget // 10))
+            try:
+                r = mod.run_case(case)
+            except CaseTimeout:
+                _disarm()
+                _W["timeouts"] = _W.get("timeouts", 0) + 1
+                desc = mod.describe(case)
+                out.append({"id": "timeout|" + repr(case)[:120], "viol": [{
+                    "case": json.dumps(desc, default=str)[:300], "clause": "terminates", "sig": "cpu>%ds" % budget,
+                    "detail": "the relay code did not finish this case within %d s of CPU time (it spins or wedges): %s" % (budget, json.dumps(desc, default=str)[:400]),
+                    "desc": desc}], "outcome": None, "evals": 1, "nontrivial": True, "desc": desc, "extra": {"cases_that_did_not_terminate": 1},
+                    "sample": {"case": repr(case)[:200], "timeout": True}})
+                # this worker's long-lived session may be wedged: start afresh
+                try:
+                    from . import seq as _seq
+
+                    _seq.close_all()
+                except BaseException:
+                    pass
+                first = False
+                continue
+            finally:
+                _disarm()
             if first and getattr(mod, "DETERMINISM_SELFTEST", True):
                 first = False
-                r2 = mod.run_case(case)
+                _arm(budget)
+                try:
+                    r2 = mod.run_case(case)
+                except CaseTimeout:
+                    r2 = r  # the first run finished; a second run that does not is reported through the first run's verdict only
+                finally:
+                    _disarm()
                 if _obs(r) != _obs(r2):
                     if r.get("viol") or r2.get("viol"):
                         # the two runs differ and at least one of them observed a violation on the real code: the relay keeps state
